@@ -77,7 +77,7 @@ const (
 
 var namesPlain = []string{"a", "b", "c", "d", "e", "f", "dir", "src", "main.go", "x.txt", "Makefile", "README.md", "lib", "t.go"}
 var namesFS = []string{"a", "b", "c", "日本", "é", "x y", "ü.txt", "🌲", "a.b.c", "Ω", "src", "main.go", "k", "Makefile",
-	"A", "É", "Main.go", " lead", "100%", "%s", "50%off.txt", "a b  c", "-dash", "~tilde", "@at", "x.TXT", "trail ", "dot.", "UPPER.GO"}
+	"A", "É", "Main.go", " lead", "100%", "%s", "50%off.txt", "a b  c", "-dash", "~tilde", "@at", "x.TXT", "trail ", "dot.", "UPPER.GO", "target", "j"}
 var namesHostile = []string{"a", "b", "a-b", "* x", " lead", "trail ", "x#y", "a:b", `q"uote`, `back\slash`, "- dash", "+p", "é", "{}", "[k]", "a  b", "c"}
 
 func genName(c *Ctx, alpha int) string {
